@@ -265,6 +265,99 @@ Definition highest_neighbor (E : list edge) (f : list Z) : list nat :=
                 end) (seq 0 (length f)).
 
 (* ------------------------------------------------------------------ *)
+(** * custom_watershed (field.py:306-356), one feature column                *)
+
+(* `th`: None = -inf.  The code thresholds through subfield(), which renumbers the
+   retained vertices in increasing order; every step below (first maximum of a sorted
+   row, components numbered by their smallest vertex, first masked argmax) only depends
+   on the ORDER of the vertices, so the model works in the original numbering. *)
+Definition aboveb (th : option Z) (x : Z) : bool :=
+  match th with None => true | Some t => (t <=? x)%Z end.
+(* row of adj + I in the thresholded sub-graph *)
+Definition nbhd_th (E : list edge) (f : list Z) (th : option Z) (i : nat) : list nat :=
+  filter (fun j => ((j =? i) || adjb E i j) && aboveb th (zat f j)) (seq 0 (length f)).
+(* sf.highest_neighbor(refdim) *)
+Definition hn_at (E : list edge) (f : list Z) (th : option Z) (i : nat) : nat :=
+  match nbhd_th E f th i with [] => i | j :: r => argmax_first f r j end.
+(* the auxiliary graph i <-> hneighb[i] as a parent array (vertices below the threshold: self) *)
+Definition ws_parents (E : list edge) (f : list Z) (th : option Z) : list nat :=
+  map (fun i => if aboveb th (zat f i) then hn_at E f th i else i) (seq 0 (length f)).
+(* the fixed point reached by following the highest neighbour (V steps are enough) *)
+Definition ws_root (E : list edge) (f : list Z) (th : option Z) (i : nat) : nat :=
+  iter_n (length f) (par (ws_parents E f th)) i.
+(* first occurrences, in order *)
+Fixpoint uniq (l : list nat) : list nat :=
+  match l with [] => [] | x :: r => x :: filter (fun y => negb (y =? x)) (uniq r) end.
+Definition above_list (f : list Z) (th : option Z) : list nat :=
+  filter (fun i => aboveb th (zat f i)) (seq 0 (length f)).
+(* lil_cc numbers the components by their smallest vertex *)
+Definition ws_roots (E : list edge) (f : list Z) (th : option Z) : list nat :=
+  uniq (map (ws_root E f th) (above_list f th)).
+Definition ws_label_nat (E : list edge) (f : list Z) (th : option Z) (i : nat) : nat :=
+  index_of (ws_root E f th i) (ws_roots E f th).
+Definition ws_label (E : list edge) (f : list Z) (th : option Z) (i : nat) : Z :=
+  if aboveb th (zat f i) then Z.of_nat (ws_label_nat E f th i) else (-1)%Z.
+Definition ws_members (E : list edge) (f : list Z) (th : option Z) (c : nat) : list nat :=
+  filter (fun m => ws_label_nat E f th m =? c) (above_list f th).
+(* ma.array(values, mask=(label != c)).argmax(): first maximum among the members *)
+Definition ws_idx (E : list edge) (f : list Z) (th : option Z) (c : nat) : nat :=
+  match ws_members E f th c with [] => 0 | m :: r => argmax_first f r m end.
+Definition custom_watershed (E : list edge) (f : list Z) (th : option Z) : option (list nat * list Z) :=
+  match above_list f th with
+  | [] => None          (* subfield() returns None: the call raises *)
+  | _ => Some (map (ws_idx E f th) (seq 0 (length (ws_roots E f th))),
+               map (ws_label E f th) (seq 0 (length f)))
+  end.
+
+(* ------------------------------------------------------------------ *)
+(** * threshold_bifurcations (field.py:358-436), one feature column          *)
+
+(* As for the watershed, the model works in the original vertex numbering.  `order` =
+   np.argsort(-initial_field) mapped back to original indices is an ORACLE value (the
+   order of ties is unspecified); [bif_order_ok] states what is assumed of it. *)
+Record bst := mk_bst { b_ll : list Z; b_par : list nat; b_root : list nat; b_q : nat }.
+Definition set_all (idxs : list nat) (v : nat) (l : list nat) : list nat :=
+  fold_left (fun acc c => set_nth c v acc) idxs l.
+(* np.unique(root[np.unique(llabel[rows[i]]) without -1]) *)
+Definition bif_nlabel (E : list edge) (V : nat) (st : bst) (i : nat) : list nat :=
+  let nbl := filter (fun z => (0 <=? z)%Z) (map (zat (b_ll st)) (row E V i)) in
+  let roots := map (fun z => nth (Z.to_nat z) (b_root st) 0) nbl in
+  filter (fun c => memb c roots) (seq 0 (length (b_root st))).
+Definition bif_step (E : list edge) (V : nat) (st : bst) (i : nat) : bst :=
+  let q := b_q st in
+  match bif_nlabel E V st i with
+  | [] => mk_bst (set_nth i (Z.of_nat q) (b_ll st)) (b_par st) (b_root st) (S q)         (* new component *)
+  | [c] => mk_bst (set_nth i (Z.of_nat c) (b_ll st)) (b_par st) (b_root st) q             (* regular point *)
+  | labs =>                                                                              (* saddle point *)
+      let root1 := set_all labs q (b_root st) in
+      let root2 := fold_left (fun r j => map (fun x => if x =? j then q else x) r) labs root1 in
+      mk_bst (set_nth i (Z.of_nat q) (b_ll st)) (set_all labs q (b_par st)) root2 (S q)
+  end.
+Definition bif_init (V : nat) : bst := mk_bst (repeat (-1)%Z V) (seq 0 (2 * V)) (seq 0 (2 * V)) 0.
+Definition bif_run (E : list edge) (f : list Z) (order : list nat) : bst :=
+  fold_left (bif_step E (length f)) order (bif_init (length f)).
+Definition bif_idx (f : list Z) (ll : list Z) (c : nat) : nat :=
+  match filter (fun m => (zat ll m =? Z.of_nat c)%Z) (seq 0 (length f)) with
+  | [] => 0 | m :: r => argmax_first f r m end.
+Definition threshold_bifurcations (E : list edge) (f : list Z) (th : option Z) (order : list nat)
+  : option (list nat * list nat * list Z) :=
+  match above_list f th with
+  | [] => None
+  | _ => let st := bif_run E f order in
+         Some (map (bif_idx f (b_ll st)) (seq 0 (b_q st)), firstn (b_q st) (b_par st), b_ll st)
+  end.
+Fixpoint sorted_desc (f : list Z) (l : list nat) : bool :=
+  match l with
+  | [] => true
+  | a :: r => match r with [] => true | b :: _ => (zat f b <=? zat f a)%Z && sorted_desc f r end
+  end.
+Definition bif_order_ok (f : list Z) (th : option Z) (order : list nat) : bool :=
+  (length order =? length (above_list f th))
+  && forallb (fun x => memb x order) (above_list f th)
+  && forallb (fun x => memb x (above_list f th)) order
+  && sorted_desc f order.
+
+(* ------------------------------------------------------------------ *)
 (** * comparison helpers for the correspondence                        *)
 Fixpoint nl_eqb (a b : list nat) : bool :=
   match a, b with
@@ -304,3 +397,17 @@ Definition forest_queries_eqb (p : list nat)
 
 Definition reorder_eqb (p order newp : list nat) : bool :=
   argsort_ok (depth_from_leaves p) order && nl_eqb (reorder_parents p order) newp.
+
+Definition ws_eqb (a : option (list nat * list Z)) (b : option (list nat * list Z)) : bool :=
+  match a, b with
+  | Some (i1, l1), Some (i2, l2) => nl_eqb i1 i2 && zl_eqb l1 l2
+  | None, None => true
+  | _, _ => false
+  end.
+
+Definition bif_eqb (a b : option (list nat * list nat * list Z)) : bool :=
+  match a, b with
+  | Some (i1, p1, l1), Some (i2, p2, l2) => nl_eqb i1 i2 && nl_eqb p1 p2 && zl_eqb l1 l2
+  | None, None => true
+  | _, _ => false
+  end.
